@@ -14,6 +14,10 @@ pub mod serde_json {
     #[verifier::accept_recursive_types(V)]
     pub struct Map<K, V> { _k: core::marker::PhantomData<(K, V)> }
     pub enum Value { Null, Bool(bool), Number(Number), String(String), Array(Vec<Value>), Object(Map<String, Value>) }
+    impl Clone for Value {
+        #[verifier::external_body]
+        fn clone(&self) -> (r: Value) ensures r == *self { unimplemented!() }
+    }
 
     impl Map<String, Value> {
         pub uninterp spec fn view(&self) -> vstd::map::Map<Seq<char>, Value>;
